@@ -16,7 +16,7 @@ use crate::geom::{self, Lattice};
 use crate::statejson::{self, Params, ShapeSpec};
 
 pub const TITLE: &str = "Output is faithful: JSON round-trips and the SVG shows the same structure";
-pub const RULE: &str = "part roundtrip: states of both kinds, all groups and shapes, built with parameters from {in-range mixtures; cell parameters with arbitrary mantissa bits inside length 0.3..100, ratio 0.05..3, angle 0.05..pi-0.05; site parameters from raw finite f64 bit patterns, 17-significant-digit values, subnormals, +-0, the largest double}; oracle: s' = from_str(to_string(s)) re-serialises byte-identically, every number of the JSON tree is bit-identical (nothing missing or added), the parameters held in memory (read through the basis handles, not the serialiser) are bit-identical, score() and relative_positions() are bit-identical. part svg: in-range states; every <use href=#mol transform=matrix(a b c d e f)> of as_svg() is parsed and the multiset of matrices must equal, each exactly once, the harness's own Cartesian placements (ITA table, own lattice) and their 8 nearest lattice translates (rel 1e-12), and the 9 cell outlines the lattice translates of the identity. part cli: the .json written by the real binary re-reads to a state whose SVG is byte-identical to the written .svg and whose JSON re-serialises byte-identically. Non-trivial = a parameter whose shortest decimal form has 17 significant digits, or a group with a mirror/glide; distinct by hash of the case.";
+pub const RULE: &str = "part roundtrip: states of both kinds, all groups and shapes, built with parameters from {in-range mixtures; cell parameters with arbitrary mantissa bits inside length 0.3..100, ratio 0.05..3, angle 0.05..pi-0.05; site parameters from raw finite f64 bit patterns, 17-significant-digit values, subnormals, +-0, the largest double}; oracle: s' = from_str(to_string(s)) re-serialises byte-identically, every number of the JSON tree is bit-identical (nothing missing or added), the parameters held in memory (read through the basis handles, not the serialiser) are bit-identical, score() and relative_positions() are bit-identical. part svg: in-range states; every <use href=#mol transform=matrix(a b c d e f)> of as_svg() is parsed and the multiset of matrices must equal, each exactly once, the harness's own Cartesian placements (ITA table, own lattice) and their 8 nearest lattice translates (rel 1e-12), and the 9 cell outlines the lattice translates of the identity. part cli: the .json written by the real binary re-reads to a state whose SVG is byte-identical to the written .svg and whose JSON re-serialises byte-identically; half of the runs write to a path whose .json/.svg already exist with 1..200000 bytes of earlier content (overwriting earlier results is the normal use). Non-trivial = a parameter whose shortest decimal form has 17 significant digits, or a group with a mirror/glide; distinct by hash of the case.";
 
 pub fn assumptions() -> Vec<&'static str> {
     vec!["states are built through serde_json::Value so that the values under test are exact before the first text serialisation", "shape coordinates inside the JSON are included in the bit-exact comparison"]
@@ -395,6 +395,10 @@ fn svg_oracle(c: &SvgCase, rec: &Rec, _: &Ctx) -> Result<(), String> {
 #[derive(Clone, Debug, Serialize, Deserialize)]
 pub struct FileCase {
     pub args: CliArgs,
+    /// bytes already present in <outfile>.json and <outfile>.svg before the run (results of an earlier run are overwritten
+    /// in normal use of the tool; 0 = fresh path)
+    #[serde(default)]
+    pub prior_len: usize,
 }
 
 fn file_strat(_: &Ctx) -> BoxedStrategy<FileCase> {
@@ -403,8 +407,9 @@ fn file_strat(_: &Ctx) -> BoxedStrategy<FileCase> {
         Just(CliShape::Circle),
         (0.3..1.2f64, 30.0..180.0f64, 0.4..1.0f64).prop_map(|(distance, angle, radius)| CliShape::Trimer { distance: Some(distance), angle: Some(angle), radius: Some(radius) }),
     ];
-    (0usize..7, shape, any::<bool>(), 1i64..=3, prop_oneof![Just(50i64), Just(200), Just(400)], prop_oneof![Just(0.01f64), Just(0.1), Just(0.5)])
-        .prop_map(|(g, shape, lj, replications, steps, max_step)| {
+    let prior = prop_oneof![2 => Just(0usize), 1 => 1usize..200, 1 => 20_000usize..200_000];
+    (0usize..7, shape, any::<bool>(), 1i64..=3, prop_oneof![Just(50i64), Just(200), Just(400)], prop_oneof![Just(0.01f64), Just(0.1), Just(0.5)], prior)
+        .prop_map(|(g, shape, lj, replications, steps, max_step, prior_len)| {
             let lj = lj && !matches!(shape, CliShape::Polygon { .. });
             FileCase {
                 args: CliArgs {
@@ -422,13 +427,26 @@ fn file_strat(_: &Ctx) -> BoxedStrategy<FileCase> {
                     verbosity: 0,
                     start_config: None,
                 },
+                prior_len,
             }
         })
         .boxed()
 }
 
 fn file_oracle(c: &FileCase, rec: &Rec, ctx: &Ctx) -> Result<(), String> {
-    let out = cli::run_args(ctx, &c.args, Some(2))?;
+    let out = {
+        let dir = cli::scratch_dir(ctx);
+        let outfile = dir.join("out");
+        if c.prior_len > 0 {
+            // what an earlier, longer result at the same path leaves behind
+            let filler = "Z".repeat(c.prior_len);
+            std::fs::write(outfile.with_extension("json"), &filler).map_err(|e| e.to_string())?;
+            std::fs::write(outfile.with_extension("svg"), &filler).map_err(|e| e.to_string())?;
+        }
+        let r = cli::run(ctx, &c.args.to_argv(&outfile), &outfile, Some(2), 120);
+        let _ = std::fs::remove_dir_all(&dir);
+        r?
+    };
     rec.eval(1);
     if out.timed_out {
         crate::mark_broken();
@@ -473,7 +491,7 @@ fn file_oracle(c: &FileCase, rec: &Rec, ctx: &Ctx) -> Result<(), String> {
             }
         }
     }
-    let class = format!("cli/{}/{}", if lj { "lj" } else { "hard" }, c.args.group);
+    let class = format!("cli/{}/{}{}", if lj { "lj" } else { "hard" }, c.args.group, if c.prior_len > 0 { "/over-existing-files" } else { "" });
     rec.class(&class);
     if group >= 2 {
         rec.nontrivial(hash_json(&serde_json::to_value(c).unwrap()));
